@@ -52,6 +52,14 @@ type ISnap struct {
 	Gauge    int    `json:"g"`                 // last value of the is-leader gauge (-1 = never set)
 	NProm    int    `json:"np"`
 	NDem     int    `json:"nd"`
+	InStop   bool   `json:"instop,omitempty"`
+	StopDone bool   `json:"stopdone,omitempty"`
+	Started  bool   `json:"started,omitempty"`
+	Cut      bool   `json:"cut,omitempty"`
+	WQ       int    `json:"wq"`   // undelivered events of the instance's active watcher (-1: none active)
+	WDeliv   int    `json:"wd"`   // events delivered to it
+	Pend     int    `json:"pend"` // pending gated ops of the instance
+	OwnRev   uint64 `json:"ownrev,omitempty"` // revision of the instance's latest acknowledged successful write
 }
 
 type Term struct {
@@ -127,7 +135,7 @@ func (m *recMetrics) SetIsLeader(v float64, _ prometheus.Labels) {
 	w.mu.Lock()
 	in.gauge = int(v)
 	ls, lt := w.leadersNow()
-	w.ev(Ev{K: "gauge", I: in.spec.ID, B: v == 1, Leaders: ls, LTok: lt, Rec: parseRec(w.store.Live(in.group(), w.now()))})
+	w.ev(Ev{K: "gauge", I: in.spec.ID, B: v == 1, S2: w.curEvent, Leaders: ls, LTok: lt, Rec: parseRec(w.store.Live(in.group(), w.now()))})
 	w.mu.Unlock()
 }
 func (m *recMetrics) SetConnectionStatus(v float64, _ prometheus.Labels) {
@@ -337,12 +345,12 @@ func (w *World) runItem(idx int) {
 	}
 	a := w.actor(it.Actor)
 	a.busy = true
-	w.ev(Ev{K: "api.call", I: it.Inst, S: name})
+	w.ev(Ev{K: "api.call", I: it.Inst, S: name, B: in != nil && in.created && in.el.IsLeader()})
 	go func() {
 		res := w.callAPI(in, it)
 		w.mu.Lock()
 		a.busy = false
-		w.ev(Ev{K: "api.ret", I: it.Inst, S: name, S2: res})
+		w.ev(Ev{K: "api.ret", I: it.Inst, S: name, S2: res, Rec: parseRec(w.store.Live(in.group(), w.now()))})
 		w.mu.Unlock()
 		w.signal()
 	}()
@@ -384,6 +392,9 @@ func (w *World) callAPI(in *Inst, it *Item) string {
 			return c, cancel
 		}
 		return context.WithCancel(context.Background())
+	}
+	if it.Do != "start" && !in.created {
+		return "not-created"
 	}
 	switch it.Do {
 	case "start":
